@@ -304,21 +304,26 @@ func init() {
 	// ---- iocloser ----
 	eng.Register(&eng.Scenario{
 		Name: "iocloser-history", Props: []string{"C20"}, NoRace: true,
-		Doc: "iocloser.ReadCloser / WriteCloser: every sequence of 10 (14 thorough) calls over {Read|Write, Close}, close function returning nil, returning an error, or nil; wrapped stream transferring fully or short with an error: data and errors pass through until Close, the close function runs exactly once, afterwards EOF without touching the wrapped stream",
+		Doc: "iocloser.ReadCloser / WriteCloser: every sequence of 10 (14 thorough) calls over {Read|Write, Close}, close function returning nil, returning an error, or nil; wrapped stream transferring fully, short with an error, or reporting EOF: data and errors pass through until Close, the close function runs exactly once, afterwards EOF without touching the wrapped stream",
 		Direct: func(rep *eng.DirectReport, shard, nshards int, thorough bool) {
 			depth := 10
 			if thorough {
 				depth = 14
 			}
 			enumSeq(depth, 2, shard, nshards, func(seq []int) {
-				for variant := 0; variant < 12; variant++ {
+				for variant := 0; variant < 18; variant++ {
 					rep.Cases++
 					// close function: returns nil | returns an error | is nil; wrapped stream: full transfer | short transfer with an error
-					writer, closeErr, nilClose, faulty := variant%2 == 1, (variant/2)%3 == 1, (variant/2)%3 == 2, variant >= 6
+					writer, closeErr, nilClose, faulty, atEOF := variant%2 == 1, (variant/2)%3 == 1, (variant/2)%3 == 2, variant/6 == 1, variant/6 == 2
 					calls, closes := 0, 0
 					wantN, wantErr := 3, error(nil)
 					if faulty {
 						wantN, wantErr = 2, errStream
+					}
+					if atEOF {
+						// the wrapped stream reports EOF on every call: still the stream's answer, passed through
+						// call by call until Close (an EOF need not be final: the source may be refilled)
+						wantN, wantErr = 0, io.EOF
 					}
 					st := &scriptRW{resp: func(call int, p []byte) (int, error) { calls++; return wantN, wantErr }}
 					var cerr error
@@ -340,7 +345,7 @@ func init() {
 						rc, op = r, r.Read
 					}
 					closed := false
-					hist := fmt.Sprintf("writer=%v closeErr=%v nilCloseFn=%v faultyStream=%v: ", writer, closeErr, nilClose, faulty)
+					hist := fmt.Sprintf("writer=%v closeErr=%v nilCloseFn=%v faultyStream=%v streamAtEOF=%v: ", writer, closeErr, nilClose, faulty, atEOF)
 					for _, l := range seq {
 						if l == 0 {
 							hist += "IO "
@@ -516,6 +521,38 @@ func init() {
 			})
 			ioproxy.ProxyStreams(s1, s2, func() { vsched.CtrAdd(cCb, 1) })
 			gF.Wait()
+			if n := vsched.Ctr(cCb); n != 2 {
+				fail("C20.ioproxy-callback", "callback ran %d times, want exactly 2", n)
+			}
+			if s1.closes() == 0 || s2.closes() == 0 {
+				fail("C20.ioproxy-close", "stream closes: s1=%d s2=%d, both must be closed", s1.closes(), s2.closes())
+			}
+		},
+	})
+
+	eng.Register(&eng.Scenario{
+		Name: "ioproxy-data-eof", Props: []string{"C20"}, MustFinish: true, ObsNames: stdObs,
+		Doc:   "ioproxy.ProxyStreams where stream 1 delivers its 4-byte message in every chunking and returns the last chunk together with io.EOF in the same Read (stream 2 sends nothing): every byte arrives at stream 2, both streams are closed, the callback runs exactly twice",
+		Quick: eng.Bounds{PB: 2}, Thorough: eng.Bounds{PB: 3},
+		Body: func() {
+			const cCb = 0
+			msg := []byte{1, 2, 3, 4}
+			var chunks [][]byte
+			start := 0
+			for i := 1; i <= len(msg); i++ {
+				if i == len(msg) || vsched.Choose(2) == 1 {
+					chunks = append(chunks, msg[start:i])
+					start = i
+				}
+			}
+			s1 := newProxyStream(1, chunks, true)
+			s1.dataEOF = true
+			s2 := newProxyStream(2, nil, false)
+			ioproxy.ProxyStreams(s1, s2, func() { vsched.CtrAdd(cCb, 1) })
+			vsched.Settle()
+			if !bytes.Equal(s2.writtenBytes(), msg) {
+				fail("C20.ioproxy-data", "stream 1 delivered %v (the last chunk together with EOF); stream 2 received %v", msg, s2.writtenBytes())
+			}
 			if n := vsched.Ctr(cCb); n != 2 {
 				fail("C20.ioproxy-callback", "callback ran %d times, want exactly 2", n)
 			}
@@ -737,6 +774,7 @@ type proxyStream struct {
 	closed  chan struct{}
 	endErr  error // returned instead of io.EOF when set
 	strict  bool  // a second Close reports "already closed" (like os.File, net.Conn)
+	dataEOF bool  // the last chunk is returned together with io.EOF in one Read (allowed by io.Reader)
 }
 
 func newProxyStream(id int, chunks [][]byte, endsEOF bool) *proxyStream {
@@ -757,6 +795,9 @@ func (s *proxyStream) Read(p []byte) (int, error) {
 			s.next++
 		}
 		vsched.Point()
+		if s.dataEOF && s.next == len(s.chunks) {
+			return n, io.EOF
+		}
 		return n, nil
 	}
 	label("stream-read")
